@@ -519,6 +519,19 @@ class NumpyCodegenMapper(CachedMapper[str, Never, []]):
         raise NotImplementedError("SizeParams not yet supported  in numpy-targets.")
 
     def map_einsum(self, expr: Einsum) -> str:
+        descr_to_axis_len = expr._access_descr_to_axis_len()
+        for arg, access_descrs in zip(expr.args, expr.access_descriptors,
+                                      strict=True):
+            if (len(set(access_descrs)) != len(access_descrs)
+                    and any(not are_shape_components_equal(
+                                dim, descr_to_axis_len[descr])
+                            for dim, descr in zip(arg.shape, access_descrs,
+                                                  strict=True))):
+                # pytato broadcasts a unit axis against the index's length,
+                # numpy-likes refuse that for an index repeated in one operand
+                raise NotImplementedError("einsum with a broadcast axis along"
+                                          " an index repeated in one operand")
+
         lhs = self.vng("_pt_tmp")
         args = [ast.Name(self.rec(arg)) for arg in expr.args]
         rhs = ast.Call(ast.Attribute(ast.Name(self.numpy_backend), "einsum"),
